@@ -393,6 +393,12 @@ func (g *Gen) genC09() {
 		hNo := 0
 		for k := 0; k < nh; k++ {
 			nv := 1 + r.N(4)
+			if r.P(8) { // a header line that is the single value '*' (un-register all): counted and summarised like any value
+				hdrs.WriteString(r.HdrName(8) + ":" + r.LWS0() + "*" + r.Pick("", " ") + "\r\n")
+				all = append(all, &NAExp{Text: "*", Star: true})
+				hNo++
+				continue
+			}
 			hdrs.WriteString(r.HdrName(8) + ":" + r.LWS0())
 			for v := 0; v < nv; v++ {
 				e := r.NameAddr(lws, false)
@@ -1404,6 +1410,26 @@ func (g *Gen) genC19() {
 				l[k].raw = strings.TrimSuffix(h.raw, "\r\n") + r.Pick(",", ", ", " ,\r\n ") + "SIP/2.0/TCP older.example.com;branch=z9hG4bK" + r.Pick("o.l-d", "x_1", "p+q") + "\r\n"
 				variants = append(variants, build(l))
 				vdesc = append(vdesc, "older via appended to the first Via header")
+				break
+			}
+		}
+		for k, h := range hs { // the branch parameter NAME of the first Via in another letter case (names are case-insensitive)
+			if h.typ == 5 {
+				lo := strings.ToLower(h.raw)
+				if p := strings.Index(lo, ";branch="); p >= 0 {
+					l := append([]sigHdr{}, hs...)
+					nm := h.raw[p+1 : p+7]
+					alt := strings.ToUpper(nm)
+					if alt == nm {
+						alt = strings.ToLower(nm)
+					}
+					if r.P(50) {
+						alt = r.ReCase(nm)
+					}
+					l[k].raw = h.raw[:p+1] + alt + h.raw[p+7:]
+					variants = append(variants, build(l))
+					vdesc = append(vdesc, "branch parameter name re-cased")
+				}
 				break
 			}
 		}
